@@ -370,3 +370,18 @@ func (s *Stats) Evals() int64 {
 	defer s.mu.Unlock()
 	return s.evals
 }
+
+// MarkCurrent records the case that is about to run in "$VF_STATS.current" (replaced for every case). When the process
+// dies in the code under test - an unrecovered panic on a goroutine the harness does not own - nothing else is left of
+// the case; the driver then turns this file into the replay.
+func MarkCurrent(prop, part string, c any) {
+	path := os.Getenv("VF_STATS")
+	if path == "" {
+		return
+	}
+	b, err := json.Marshal(map[string]any{"property": prop, "part": part, "seed": Seed(), "case": c})
+	if err != nil {
+		return
+	}
+	_ = os.WriteFile(path+".current", b, 0o644)
+}
